@@ -460,4 +460,67 @@ from the range (`seq(5,1,1) = 1 0 -1 -2 -3`) -/
 theorem seqOrig_descending_wrong (trunc : ℝ → Nat) (frm tt by_ : ℝ) (hby : 0 < by_) (h : tt < frm) :
     ∃ l, seqOrig trunc frm tt by_ = .ok (tt :: l) := seqOrig_starts_at_to trunc frm tt by_ hby h
 
+/-! ## further definitional statements (each is a clause the driver evaluates) -/
+
+/-- `norm` is √Σxᵢ² -/
+theorem norm_spec (v : List ℝ) : norm v = Real.sqrt (v.map (fun x => x * x)).sum := norm_eq v
+
+/-- weighted `scalar` is Σ v1ᵢ·v2ᵢ·wᵢ -/
+theorem scalarW_spec (v1 v2 w : List ℝ) (h1 : v1.length = w.length) (h2 : v2.length = w.length) :
+    scalarW v1 v2 w = .ok (zipWith3 (fun a b c => a * b * c) v1 v2 w).sum := scalarW_eq v1 v2 w h1 h2
+
+/-- Cauchy–Schwarz for `cos`: the cosine of two non-zero vectors lies in `[-1,1]` -/
+theorem cos_range (v1 v2 : List ℝ) (h : v1.length = v2.length)
+    (h1 : 0 < (v1.map (fun x => x * x)).sum) (h2 : 0 < (v2.map (fun x => x * x)).sum) :
+    ∃ c, VecTools.cos v1 v2 = .ok c ∧ c ^ 2 ≤ 1 := by
+  unfold VecTools.cos
+  rw [scalar_eq v1 v2 h]
+  refine ⟨_, rfl, ?_⟩
+  rw [norm_eq, norm_eq, div_pow, mul_pow, Real.sq_sqrt h1.le, Real.sq_sqrt h2.le, div_le_one (mul_pos h1 h2)]
+  have := cauchy_schwarz_list v1 v2
+  simpa [sq] using this
+
+/-- `range` is (min, max) -/
+theorem range_spec (v : List ℝ) (lo hi : ℝ) (h : VecTools.range v = .ok (lo, hi)) :
+    VecTools.min v = .ok lo ∧ VecTools.max v = .ok hi := range_spec' v lo hi h
+
+/-- `center` subtracts the mean: the centred sample sums to 0 -/
+theorem center_spec (v : List ℝ) :
+    center v = v.map (· - v.sum / (v.length : ℝ)) ∧ (v ≠ [] → (center v).sum = 0) :=
+  ⟨center_eq v, sum_center v⟩
+
+/-- `whichMaxAll` answers exactly the positions of the maximum, in increasing order -/
+theorem whichMaxAll_positions (v : List ℝ) (pos : List Nat) (h : whichMaxAll v = .ok pos) :
+    ∃ m, VecTools.max v = .ok m ∧ IsPositionsOf Scalar.eqb v m pos := whichMaxAll_spec v pos h
+
+/-- `which` answers the first position of the element … -/
+theorem which_first {β : Type} (eq : β → β → Bool) (v : List β) (x : β) (p : Nat) (h : which eq v x = .ok p) :
+    (∃ y, v[p]? = some y ∧ eq y x = true) ∧ ∀ y ∈ v.take p, eq y x = false := by
+  have := whichFrom_spec eq x v 0 p h
+  simpa using this.2
+
+/-- … and raises ElementNotFoundException when there is none -/
+theorem which_notfound_raises {β : Type} (eq : β → β → Bool) (v : List β) (x : β)
+    (h : ∀ y ∈ v, eq y x = false) : which eq v x = .error .notfound := whichFrom_notfound eq x v 0 h
+
+/-- `shannon` is `-Σ_{x>0} x·ln x / ln base` -/
+theorem shannon_spec (v : List ℝ) (base : ℝ) :
+    shannon v base = - ((v.filter (fun x => decide (0 < x))).map (fun x => x * Real.log x / Real.log base)).sum :=
+  shannon_eq v base
+
+/-- the entropy of frequencies (entries `≤ 1`) to a base `> 1` is non-negative -/
+theorem shannon_nonneg (v : List ℝ) (base : ℝ) (hb : 1 < base) (hv : ∀ x ∈ v, x ≤ 1) : 0 ≤ shannon v base :=
+  shannon_nonneg' v base hb hv
+
+section Sets2
+variable {β : Type} [LinearOrder β]
+
+/-- `isUnique` holds exactly when no element is repeated -/
+theorem isUnique_iff (v : List β) : isUnique deq dlt v = true ↔ v.Nodup := isUnique_iff' v
+
+/-- `haveSameElements` holds exactly for permutations (same elements with the same frequencies) -/
+theorem haveSame_iff (a b : List β) : haveSameElements deq dlt a b = true ↔ a.Perm b :=
+  haveSameElements_iff' a b
+end Sets2
+
 end Bpp.C07
